@@ -277,6 +277,22 @@ func (g *gen) badEntry(i int, kind string) entry {
 		if g.chance(30) { // the same bad host twice / beside a compiling glob host
 			e.Tags = append(e.Tags, g.routeTag(feat{badHost: true}, nil), g.routeTag(feat{globHost: true}, nil))
 		}
+	case "grammar-completing":
+		// extra words in the name / route that complete the route add grammar, with a route or a
+		// redirect target that reads as a keyword, a weight or a quoted clause
+		switch g.r.Intn(4) {
+		case 0:
+			e.Name = g.pick([]string{"victim victim.com/ http://evil:80/", "a  b c", "svc host/ http://dst/", "x\ty z", "a b", "svc /p http://h/ weight 1 tags"})
+			e.Tags = []string{g.prefix + g.pick([]string{"weight", "tags", "opts"}) + " " + g.pick([]string{"redirect=301,1", "redirect=301,0.5", `redirect=301,"x"`, "redirect=301,abc", "redirect=302,\"strip=/x\""})}
+		case 1:
+			e.Tags = append(e.Tags, g.prefix+g.pick([]string{"victim.com/\thttp://evil/\tweight redirect=301,1", "/x\thttp://evil/ strip=/x", "h.com/\thttp://evil:80/\ttags redirect=301,\"x\""}))
+		case 2:
+			e.Tags = append(e.Tags, g.pick([]string{`a" opts "strip=/x`, `x" weight "1`, `a" tags "b`, `a" opts "`}))
+		default:
+			e.Name = g.pick([]string{"svc ", " svc", "\tsvc", "svc\t", "svc\v", "\vsvc", "a\vb"})
+		}
+	case "unicode-space":
+		e.Tags = append(e.Tags, g.pick([]string{"a\u00a0b", "\u00a0lead", "trail\u0085", "x\u2028y", g.prefix + "/nb\u00a0sp strip=/x", g.prefix + "/o a=1\u00a0b=2", g.prefix + "\u00c9.com/"}))
 	case "empty-route":
 		e.Tags = append(e.Tags, g.pick([]string{g.prefix, g.prefix + " ", g.prefix + " proto=tcp", g.prefix + "/x\tproto=tcp", g.prefix + "\t/x"}))
 	}
@@ -284,7 +300,7 @@ func (g *gen) badEntry(i int, kind string) entry {
 }
 
 var badKinds = []string{"quote-tag", "alter-tag", "utf8-tag", "bad-utf8-tag", "empty-tag", "bad-name", "odd-name", "bad-addr", "no-addr", "neg-port",
-	"odd-weight", "crash-weight", "other-weight", "odd-opt", "odd-redirect", "bad-path", "empty-route", "bad-host"}
+	"odd-weight", "crash-weight", "other-weight", "odd-opt", "odd-redirect", "bad-path", "empty-route", "bad-host", "grammar-completing", "unicode-space"}
 
 // multiTag: >= 2 routing tags where earlier ones set the destination (proto= / redirect=) and later ones do not
 func (g *gen) multiTag(i int) entry {
@@ -505,7 +521,7 @@ func (f *facts) weight(lit string) {
 		return
 	}
 	v, err := strconv.ParseFloat(lit, 64)
-	if err != nil {
+	if err != nil || math.IsNaN(v) || math.IsInf(v, 0) { // route.parseWeight since /repo 0b2a40e
 		f.wl[lit] = vh.Err(5)
 	} else if w, ok := wtTerm(v); ok {
 		f.wl[lit] = vh.Ok(w)
@@ -618,12 +634,37 @@ func newTable(text string) (t route.Table, err error, panicked bool, pv interfac
 // doRegs runs one case: the entries, through the real build, Parse and NewTable.
 // entryFacts: exclusions of the modelled domain, and what the libraries say about the strings of
 // the entries (also of commands the implementation drops: the model re-runs the validation).
+// realOnly: an input outside the modelled domain gets no Coq case but is still run through the real
+// build / Parse / NewTable: no panic, every emitted command accepted alone, the whole text accepted.
+func realOnly(run *vh.Run, prefix string, env map[string]string, es []entry) {
+	var all []string
+	for _, e := range es {
+		svc := &api.CatalogService{ServiceName: e.Name, ServiceID: e.ID, ServiceAddress: e.Addr, Address: e.Node, ServicePort: e.Port, ServiceTags: e.Tags}
+		var cmds []string
+		if p, pv := vh.Recover(func() { cmds = consul.VerifC14Build(svc, prefix, env) }); p {
+			run.Violation(run.NextID(), fmt.Sprintf("routecmd.build panicked: %v", pv), e)
+			return
+		}
+		for _, c := range cmds {
+			if _, err, panicked, _ := newTable(c); err != nil || panicked {
+				run.Violation(run.NextID(), fmt.Sprintf("an emitted command is not accepted on its own: %v", err), map[string]interface{}{"entry": e, "cmd": c})
+			}
+		}
+		all = append(all, cmds...)
+	}
+	sort.Sort(sort.Reverse(sort.StringSlice(all)))
+	if _, err, panicked, pv := newTable(strings.Join(all, "\n")); err != nil || panicked {
+		run.Violation(run.NextID(), fmt.Sprintf("route.NewTable rejects the text generated from entries outside the modelled domain: %v %v", err, pv), es)
+	}
+}
+
 func entryFacts(run *vh.Run, prefix string, env map[string]string, es []entry) (*facts, bool) {
 	f := newFacts()
 	for _, e := range es {
 		for _, s := range append([]string{e.Name, e.Addr, e.Node}, e.Tags...) {
 			if hasUnicodeSpace(s) {
-				run.Exclude("non-ASCII Unicode space in the entry (strings.TrimSpace / Fields are modelled on ASCII)")
+				run.Exclude("non-ASCII Unicode space in the entry (strings.TrimSpace / Fields are modelled on ASCII): real code only")
+				realOnly(run, prefix, env, es)
 				return nil, false
 			}
 			f.runes(s)
@@ -635,7 +676,8 @@ func entryFacts(run *vh.Run, prefix string, env map[string]string, es []entry) (
 				r = strings.SplitN(r, " ", 2)[0]
 				h := strings.SplitN(r, "/", 2)[0]
 				if !ascii(h) {
-					run.Exclude("non-ASCII host part in a routing tag (strings.ToLower is modelled on ASCII)")
+					run.Exclude("non-ASCII host part in a routing tag (strings.ToLower is modelled on ASCII): real code only")
+					realOnly(run, prefix, env, es)
 					return nil, false
 				}
 				if rt, opts, ok := consul.VerifC14ParseURLPrefixTag(tt, prefix, env); ok {
@@ -882,12 +924,13 @@ func doConfig(run *vh.Run, class string, prefix string, dc string, monitors int,
 			return // not addressable through the catalog URL of this fake
 		}
 	}
-	var live []entry
+	lookupFailed := false
 	for _, e := range es {
-		if !failing[e.Name] {
-			live = append(live, e)
+		if failing[e.Name] {
+			lookupFailed = true
 		}
 	}
+	live := es
 	f, ok := entryFacts(run, prefix, env, live)
 	if !ok {
 		return
@@ -919,13 +962,14 @@ func doConfig(run *vh.Run, class string, prefix string, dc string, monitors int,
 	mon := consul.NewServiceMonitor(client, &config.Consul{TagPrefix: prefix, ServiceMonitors: monitors}, dc)
 	sample := map[string]interface{}{"prefix": prefix, "dc": dc, "monitors": monitors, "catalog": es, "lookup_fails": failing}
 	type res struct {
-		text string
-		pv   interface{}
+		text   string
+		failed bool
+		pv     interface{}
 	}
 	done := make(chan res, 1)
 	go func() {
 		var r res
-		_, r.pv = vh.Recover(func() { r.text = consul.VerifC14MakeConfig(mon, checks) })
+		_, r.pv = vh.Recover(func() { r.text, r.failed = consul.VerifC14MakeConfigErr(mon, checks) })
 		done <- r
 	}()
 	id := run.NextID()
@@ -971,7 +1015,9 @@ func doConfig(run *vh.Run, class string, prefix string, dc string, monitors int,
 	for _, e := range live {
 		regs = append(regs, vh.App("G", vh.HxS(e.Name), vh.HxS(e.ID), vh.HxS(e.Addr), vh.HxS(e.Node), vh.Z(int64(e.Port)), strList(e.Tags)))
 	}
-	run.Add(class, vh.App("CConfig", envTerm(env), vh.HxS(prefix), sortedTerm(f.urls), f.globTerm(), sortedTerm(f.wl), vh.List(regs), vh.HxS(r.text)), sample)
+	sample["error"] = r.failed
+	run.Add(class, vh.App("CConfig", envTerm(env), vh.HxS(prefix), sortedTerm(f.urls), f.globTerm(), sortedTerm(f.wl), vh.List(regs),
+		vh.Bool(lookupFailed), vh.Bool(r.failed), vh.HxS(r.text)), sample)
 }
 
 // ---------- histories: the same process sees the catalog again and again ----------
@@ -1142,6 +1188,12 @@ func directed() []fixed {
 		with(e1("ok", "10.0.0.2", 80, "urlprefix-/w weight=0.2 weight=0.3", "urlprefix-/w2 weight=-1", "urlprefix-/w3 weight=")),
 		with(e1("ok", "10.0.0.2", 80, "urlprefix-/p proto=http strip=/x proto=grpc proto=grpcs", "caf\xc3\xa9", "\xe6\x97\xa5")),
 		with(e1("ok", "10.0.0.2", 80, " urlprefix-/sp   a=1 \t b=2 ", " padded ", "a b")),
+		with(e1("victim victim.com/ http://evil:80/", "10.0.0.2", 80, "urlprefix-weight redirect=301,1")),
+		alone(e1("a  b c", "10.0.0.2", 80, "urlprefix-weight redirect=301,0.5")),
+		with(e1("svc x/ http://e/", "10.0.0.2", 80, `urlprefix-tags redirect=301,"x"`)),
+		with(e1("bad", "10.0.0.2", 80, "urlprefix-victim.com/\thttp://evil/\tweight redirect=301,1")),
+		with(e1("bad", "10.0.0.2", 80, "urlprefix-/bad", `a" opts "strip=/x`)),
+		with(e1("bad", "10.0.0.2", 80, "urlprefix-/bad weight=NaN", "urlprefix-/inf weight=Inf", "urlprefix-/ok weight=0.5")),
 		with(e1("long", "10.0.0.2", 80, "urlprefix-/long", strings.Repeat("x", 70000))),
 		with(e1("half", "10.0.0.2", 80, "urlprefix-/ok", "urlprefix-/bad weight=abc", "urlprefix-/[", "urlprefix-/ok2 strip=/ok2")),
 		with(e1("svc ", "10.0.0.2", 80, "urlprefix-/blank"), e1(" svc", "10.0.0.2", 80, "urlprefix-/blank2")),
